@@ -33,26 +33,26 @@ macro_rules! compare_impl {
                     format!("{} requires at least 2 arguments", $symbol),
                 ));
             }
-            for items in items.windows(2) {
-                let a = ctx.eval(&items[0])?;
-                let b = ctx.eval(&items[1])?;
-                if !a.numberp() {
+            let mut holds = true;
+            let mut prev: Option<TulispObject> = None;
+            for item in &items {
+                let val = ctx.eval(item)?;
+                if !val.numberp() {
                     return Err(Error::new(
                         crate::ErrorKind::TypeMismatch,
-                        format!("Expected number, found: {a}"),
+                        format!("Expected number, found: {val}"),
                     )
-                    .with_trace(items[0].clone()));
+                    .with_trace(item.clone()));
                 }
-                if !b.numberp() {
-                    return Err(Error::new(
-                        crate::ErrorKind::TypeMismatch,
-                        format!("Expected number, found: {b}"),
-                    )
-                    .with_trace(items[1].clone()));
+                if let Some(prev) = prev {
+                    if holds && !compare_ops!(std::cmp::PartialOrd::$name)(&prev, &val)? {
+                        holds = false;
+                    }
                 }
-                if !compare_ops!(std::cmp::PartialOrd::$name)(&a, &b)? {
-                    return Ok(TulispObject::nil());
-                }
+                prev = Some(val);
+            }
+            if !holds {
+                return Ok(TulispObject::nil());
             }
             Ok(TulispObject::t())
         }
